@@ -16,6 +16,7 @@ import (
 // route: end to end, is a statement answered by the proxy itself or forwarded - as QUERY and as PREPARE + EXECUTE.
 // op:   T:<truth 1 local|0 forwarded> K:<hex current keyspace|-> <hex statement>
 //       P:<keyspace hex>: before that, on the same connection, USE <keyspace> and the same statement (QUERY and PREPARE)
+//       F:<keyspace hex>: after USE <K>, a USE of this keyspace that the backend rejects - it changes nothing
 // real: query=<local|fwd|none> prepare=<local|fwd|none> execute=<local|fwd|none|skip>
 
 func init() { streams["route"] = stream{gen: genRoute, run: runRoute} }
@@ -26,7 +27,7 @@ func runRoute(op string) (out string) {
 			out = fmt.Sprintf("panic:%v", p)
 		}
 	}()
-	ks, q, prevKs := "", "", ""
+	ks, q, prevKs, failKs := "", "", "", ""
 	hasPrev := false
 	version := primitive.ProtocolVersion4
 	for _, t := range strings.Fields(op) {
@@ -42,6 +43,9 @@ func runRoute(op string) (out string) {
 				b, _ := hex.DecodeString(t[2:])
 				prevKs = string(b)
 			}
+		case strings.HasPrefix(t, "F:"):
+			b, _ := hex.DecodeString(t[2:])
+			failKs = string(b)
 		case strings.HasPrefix(t, "K:"):
 			if t[2:] != "-" {
 				b, _ := hex.DecodeString(t[2:])
@@ -82,6 +86,19 @@ func runRoute(op string) (out string) {
 		_ = cl.Send(1, &message.Query{Query: "USE " + ks, Options: &message.QueryOptions{Consistency: primitive.ConsistencyLevelOne}})
 		if _, err := cl.Recv(3 * time.Second); err != nil {
 			return "use-unanswered"
+		}
+	}
+	if failKs != "" {
+		canon := strings.ToLower(failKs)
+		if strings.HasPrefix(failKs, "\"") {
+			canon = strings.Trim(failKs, "\"")
+		}
+		env.Cluster.SetMissingKeyspace(canon)
+		_ = cl.Send(1, &message.Query{Query: "USE " + failKs, Options: &message.QueryOptions{Consistency: primitive.ConsistencyLevelOne}})
+		if r, err := cl.Recv(3 * time.Second); err != nil {
+			return "use-unanswered"
+		} else if _, ok := r.Frame.Body.Message.(*message.SetKeyspaceResult); ok {
+			return "env-error:use-not-rejected"
 		}
 	}
 	observe := func(msg message.Message) (string, *e2e.Reply) {
@@ -146,6 +163,10 @@ func genRoute(e *emitter, r *rng.R, n int, tier string) {
 		}
 		q := varyCaseWs(rr, "SELECT "+rr.Pick([]string{"*", "key", "count(*)"})+" FROM "+qual+tbl)
 		ops = append(ops, fmt.Sprintf("V:%d T:%d K:%s %s", []int{3, 4, 4, 5, 65, 66}[rr.Intn(6)], b2i(ksSys && tblSys), k, hx(q)))
+		if rr.Intn(3) == 0 { // a rejected USE in between: of the system keyspace when the current one is not, of another one when it is
+			inSys := strings.EqualFold(ks, "system") || ks == "\"system\""
+			ops = append(ops, fmt.Sprintf("V:4 T:%d K:%s F:%s %s", b2i(ksSys && tblSys), k, hx(map[bool]string{true: rr.Pick([]string{"gone", "\"Gone\""}), false: rr.Pick([]string{"system", "SYSTEM", "\"system\""})}[inSys]), hx(q)))
+		}
 		if ks != "" && rr.Intn(2) == 0 { // the same statement was seen earlier under another keyspace
 			ops = append(ops, fmt.Sprintf("V:4 T:%d P:%s K:%s %s", b2i(ksSys && tblSys), hx(map[bool]string{true: rr.Pick([]string{"app", "\"System\"", "other"}), false: rr.Pick([]string{"system", "SYSTEM", "\"system\""})}[strings.EqualFold(ks, "system") || ks == "\"system\""]), k, hx(q)))
 		}
